@@ -57,6 +57,16 @@ func runC17(t *verifsim.Tape, cfg engine.Config) *engine.Outcome {
 	}
 	mix := t.Draw("mix", 4) // 0 patterns only, 1 formats only, 2,3 both
 	nPat := 1 + t.Draw("npat", 6)
+	// one run in eight works a pool that is larger than any plausible bound of
+	// the cache, then goes back to the patterns it used first: verdicts must
+	// not depend on how many other patterns were seen in between
+	bigPool := t.Draw("bigpool", 8) == 7
+	if bigPool {
+		nPat = 130 + t.Draw("npat-big", 300)
+		if nTasks > 3 {
+			nTasks = 3
+		}
+	}
 	// the marker makes this run's patterns distinct from every other run's, so
 	// a worker process that hosts many runs starts each one on a cold entry
 	marker := fmt.Sprintf("(?:%x){0}", t.Sub("marker"))
@@ -67,7 +77,12 @@ func runC17(t *verifsim.Tape, cfg engine.Config) *engine.Outcome {
 	}
 	pats := make([]pat, nPat)
 	for i := range pats {
-		r := genRegex(t, 2)
+		var r rx
+		if bigPool && i >= 4 {
+			r = rxAnch{rxCat{rxLit(fmt.Sprintf("p%d-", i)), rxClass{'a', 'c'}}, true, true}
+		} else {
+			r = genRegex(t, 2)
+		}
 		src := marker + r.String()
 		if t.Draw("nomarker-dup", 8) == 0 && i > 0 {
 			src, r = pats[i-1].src, pats[i-1].rx // two pool slots, one cache entry
@@ -88,11 +103,22 @@ func runC17(t *verifsim.Tape, cfg engine.Config) *engine.Outcome {
 	totalOps := 0
 	for i := range tasks {
 		n := 2 + t.Draw("nops", maxOps)
+		if bigPool {
+			n = 2*nPat/nTasks + 16
+		}
 		tk := &c17task{}
 		for j := 0; j < n; j++ {
-			usePat := mix == 0 || (mix >= 2 && t.Draw("kind", 2) == 0)
+			usePat := mix == 0 || (mix >= 2 && t.Draw("kind", 2) == 0) || bigPool
 			if usePat {
 				p := pats[t.Draw("pat", len(pats))]
+				if bigPool {
+					switch {
+					case j < 4 || j >= n-12: // first and last calls use the first four patterns
+						p = pats[t.Draw("pat-early", 4)]
+					default: // in between, walk the pool
+						p = pats[(4+(j*nTasks+i))%len(pats)]
+					}
+				}
 				var v string
 				switch t.Draw("valk", 4) {
 				case 0, 1:
@@ -225,6 +251,10 @@ func runC17(t *verifsim.Tape, cfg engine.Config) *engine.Outcome {
 	}
 	if warm > 0 {
 		o.Features["prewarmed_runs"]++
+	}
+	if bigPool {
+		o.Features["big_pool_runs"]++
+		o.Features["big_pool_patterns"] += nPat
 	}
 	// concurrent miss on one pattern: two tasks inside the miss path at once is
 	// visible as two write-lock grants for a single-pattern pool; counted from
